@@ -402,6 +402,16 @@ impl UcdLineParser<ucd_parsers::UnicodeData> for UnassignedTableGen {
 
 impl CodeGen for UnassignedTableGen {
     fn generate_code(&mut self, file: &mut File) -> Result<(), Error> {
-        file_writer::generate_code_from_vec(file, &self.name, &self.vec)
+        // Code points after the last entry in the file are unassigned too
+        let mut vec = self.vec.clone();
+        let last = ucd_parse::Codepoint::from_u32(0x10ffff)?;
+        if self.range.start.value() <= last.value() {
+            let gap = ucd_parse::CodepointRange {
+                start: self.range.start,
+                end: last,
+            };
+            common::add_codepoints(&gap, &mut vec);
+        }
+        file_writer::generate_code_from_vec(file, &self.name, &vec)
     }
 }
